@@ -1,0 +1,23 @@
+//go:build verif
+
+// Contracts for the deductive verifier in /verif (comment-only; compiled only with -tags verif).
+
+package loglist3
+
+//@ func (*LogList).TemporallyCompatible
+//@ props C18 C17
+//@ arith int
+//@ pure
+//@ loop-frames
+//@ frame-trusted the copied operator's Logs field is replaced by a fresh empty slice before anything is appended to it
+//@ site store:Logs#2 as keepUnsharded
+//@ site store:Logs#3 as keepInWindow
+//@ site Before#1 as bf
+//@ requires ll != nil
+//@ requires forall j int :: 0 <= j && j < len(ll.Operators) ==> ll.Operators[j] != nil
+//@ requires forall j int :: 0 <= j && j < len(ll.Operators) ==> (forall k int :: 0 <= k && k < len(ll.Operators[j].Logs) ==> ll.Operators[j].Logs[k] != nil)
+//@ at keepUnsharded assert [logs-without-interval-are-always-compatible] l.TemporalInterval == nil
+//@ at keepInWindow assert [kept-only-if-start-le-notafter-lt-end] l.TemporalInterval != nil && instant(l.TemporalInterval.StartInclusive) <= instant(cert.NotAfter) && instant(cert.NotAfter) < instant(l.TemporalInterval.EndExclusive)
+//@ loop 2 step-assert [every-log-whose-window-contains-notafter-is-kept] l.TemporalInterval != nil && instant(l.TemporalInterval.StartInclusive) <= instant(cert.NotAfter) && instant(cert.NotAfter) < instant(l.TemporalInterval.EndExclusive) ==> keepInWindow.called
+//@ loop 2 step-assert [unsharded-logs-kept] l.TemporalInterval == nil ==> keepUnsharded.called
+//@ ensures [nil-certificate-matches-nothing] cert == nil ==> len(result.Operators) == 0
